@@ -1,6 +1,7 @@
 (* Model/KnownC01.v - Known_C01: the computable classes of (base, input) on which the pinned code is
    known to deviate from the WHATWG URL Standard (DESIGN.md section 9; known_findings.json).
-     class 1  the file scheme is involved (the scheme of the input, or of the base of a scheme-less input);
+     class 1  the file scheme is involved (the scheme of the input, or of the base of a scheme-less input
+              that is not empty and does not start with '?' or '#');
      class 2  a ".." (in any spelling) meets a drive-letter-shaped last segment in the path the Standard's
               path state builds (F-C01-9: parser.rs never pops such a segment, in any scheme);
      class 3  authority of a non-special URL: a port number <= 65535 directly followed by '\' (F-C01-8);
@@ -216,6 +217,8 @@ Definition k_relative (sp : bool) (b : url) (rest : list N) : N :=
          else k_bad (k_path_ok false rest (k_base_stack b) []))
   end.
 
+Definition k_bare_ref (rest : list N) : bool := match rest with [] => true | c :: _ => k_qh c end.
+
 (* 0 = not known; 1..4 = class *)
 Definition known_c01 (base : option url) (input : list N) : N :=
   let t := cleaned input in
@@ -223,8 +226,10 @@ Definition known_c01 (base : option url) (input : list N) : N :=
   let bscheme := match base with Some b => Some (b_scheme b) | None => None end in
   let eff := match sch with Some s => s | None => match bscheme with Some s => s | None => [] end end in
   let rest := match sch with Some _ => after_colon t | None => t end in
-  if list_eqb eff s_file
-     || (match bscheme, sch with Some s, None => list_eqb s s_file | _, _ => false end) then 1
+  (* a scheme-less reference that is empty or starts with '?' / '#': resolved without the file states *)
+  let bare := match base, sch with Some _, None => k_bare_ref rest | _, _ => false end in
+  if (list_eqb eff s_file
+      || (match bscheme, sch with Some s, None => list_eqb s s_file | _, _ => false end)) && negb bare then 1
   else
     let sp := is_special_scheme_name eff in
     match base, sch with
